@@ -6,7 +6,7 @@ cursor) and every insert / delete / end-of-pass; the extracted acceptors must ad
 hypothesis of the loop theorem — and the iteration count must respect the proved bound; (3) the property's oracle on the API:
 make / query everything / destroy under ASan+UBSan(+LSan) with a per-case watchdog, n_slots <= 64 * n_chars, over shipped
 fonts, adversarial rule actions that pass the real loader, and byte-mutated fonts that the real loader accepts."""
-import os, struct, shutil
+import os, re, struct, shutil
 import vlib
 from props import shapegen as S, engine, vmslotgen as V
 
@@ -205,6 +205,60 @@ def run(chk):
     total += len(gcases)
     shutil.rmtree(gdir, ignore_errors=True)
     chk.notes.append('inserting programs: %s' % sorted(gstats.items()))
+    # --- the rule loop of the engine against the reference loop (Model/RuleModel.v: loop_step), iteration by iteration: the theorems
+    #     C02_reference_loop_accepted / _pass_terminates / _growth_cap are about that reference; here its observation sequence
+    #     (measure, counter, reset, live cursor per iteration, per pass) must be the engine's
+    rexe = vlib.build_model_driver('Rule')
+    rdir = os.path.join(vlib.BUILD, 'fuzzfonts', 'c02r-%s-%d' % (chk.tier, chk.seed))
+    rbase, rgl, rinv, radv = c06.prepare(chk, w, rdir)
+    rcases, rmcases, rtexts = [], [], []
+    for k in range(500 if thorough else 60):
+        prog, nsub = (c06.gen_growth_program(rng, rgl) if rng.random() < 0.3 else c06.gen_program(rng, rgl))
+        try:
+            data = K.build_font(rbase, prog, nsub)
+        except Exception as e:
+            chk.tie_break('compiler', 'fontkit failed: %s' % e); continue
+        fp = os.path.join(rdir, 'r%d.ttf' % k)
+        open(fp, 'wb').write(data)
+        text = K.prog_to_text(prog)
+        alpha = sorted(set(g for ps in prog for g in ps['alpha']))
+        for t in range(6):
+            n = rng.choice((1, 2, 3, 5, 8, 12))
+            gids = [rng.choice(alpha) if rng.random() < 0.85 else rng.choice(rgl) for _ in range(n)]
+            cid = 'rt%d.%d' % (k, t)
+            rcases.append(S.case_line(cid, fp, [rinv[g] for g in gids], 32, ops=('dump', 'ltrace')))
+            rmcases.append('%s gdlL %d %s %s %s' % (cid, nsub, text, radv, ','.join(map(str, gids))))
+            rtexts.append(text)
+    _, ril, _ = vlib.run_pair(None, w, rcases, timeout=2400)
+    rml, _, _ = vlib.run_pair(rexe, None, rmcases, timeout=2400)
+    rstats = {'same': 0, 'iterations': 0, 'resets': 0, 'died': 0}
+    for c, mc, i, m, text in zip(rcases, rmcases, ril, rml, rtexts):
+        if i is None or m is None:
+            chk.tie_break('harness', 'no result line', c[:300]); continue
+        if 'ABORT' in i.split()[1:3]:
+            chk.violation('c02:reftrace:abort:%s' % text[:100], 'shaping with a compiled rule program aborted: %s' % i[:300], dict(case=c, got=i[:800], tag='reftrace')); continue
+        got = i.split(' | L ', 1)[1].split(' | ')[0].strip() if ' | L ' in i else '-'
+        exp = m.split(' T ', 1)[1].strip() if ' T ' in m else '?'
+        # the reset flag of an observation whose cursor is null carries no information (the acceptor ignores it; the reference derives it from the counter)
+        norm = lambda tr: re.sub(r'(\d+,\d+),[01],0;', r'\1,0,0;', tr)
+        got, exp = norm(got), norm(exp)
+        if i.split()[1] == 'NULLSEG':
+            rstats['died'] += 1
+        if got == exp:
+            rstats['same'] += 1
+            its = [x for ps in got.split('/')[1:] for x in ps.split(':', 1)[1].split(';') if x]
+            rstats['iterations'] += len(its); rstats['resets'] += sum(1 for x in its if x.split(',')[2] == '1')
+            classes.add(('reftrace', min(len(its), 40), text.count('/'), i.split()[1] == 'NULLSEG'))
+        else:
+            ndis += 1
+            gt, et = got.split(';'), exp.split(';')
+            fd = next((k for k in range(min(len(gt), len(et))) if gt[k] != et[k]), min(len(gt), len(et)))
+            chk.tie_break('correspondence:reference-loop', 'the engine\'s rule loop and the reference loop of Model/RuleModel.v differ in their per-iteration observations (measure, counter, reset, live): '
+                          'first difference at iteration token %d: engine ...%s reference ...%s [%s]' % (fd, ';'.join(gt[max(0, fd - 3):fd + 3]), ';'.join(et[max(0, fd - 3):fd + 3]), text[:300]), c[:400])
+    total += len(rcases)
+    shutil.rmtree(rdir, ignore_errors=True)
+    chk.notes.append('reference loop traces: %s' % sorted(rstats.items()))
+    stats.update({'reftrace ' + k: v for k, v in rstats.items()})
     # --- mutated fonts that the real loader accepts
     fdir = os.path.join(vlib.BUILD, 'fuzzfonts', 'c02-%s-%d' % (chk.tier, chk.seed))
     shutil.rmtree(fdir, ignore_errors=True)
@@ -273,10 +327,12 @@ def run(chk):
         chk.tie_break('build', 'vmslot harness: %s' % str(e)[:300])
     chk.notes.append('shipped: %s' % sorted(stats.items()))
     chk.notes.append('mutated fonts (%d fonts x 3 texts): %s' % (nf, sorted(mstats.items())))
-    chk.cov.update(evaluations=total + n_vm, distinct_nontrivial=len(classes), disagreements_checked=ndis, distribution=dist,
+    chk.cov.update(evaluations=total + n_vm, distinct_nontrivial=len(classes), disagreements_checked=ndis, distribution=dict(dist, **{k: v for k, v in stats.items() if k.startswith('reftrace')}),
                    rule='(a) shipped fonts x generated texts (3 encodings, dir 0..7, face options, ppm, ill-formed units), long repetitive texts, random feature values; (b) %d byte-mutated fonts '
                         '(Silf-weighted: 1-5 byte edits in Silf/Glat/Gloc/Feat/Sill/cmap/hmtx/maxp/head/name) x 3 texts, of which the real loader accepted those counted under segments/nullseg; '
-                        '(b2) compiled GDL-lite programs of 1-4 passes inserting 1-40 slots per matched glyph on texts of 1-40 characters (growth up to the cap and the budget); (c) %d adversarial rule programs accepted by the real bytecode loader and run on real segments.  Every case: make, dump (all gr_seg_*/gr_slot_*/gr_cinfo_* queries), destroy under '
+                        '(b2) compiled GDL-lite programs of 1-4 passes inserting 1-40 slots per matched glyph on texts of 1-40 characters (growth up to the cap and the budget); '
+                        '(b3) random and insert-heavy GDL-lite programs x 6 strings: the engine\'s per-iteration loop observations (measure, counter, reset, live) per pass compared token by token with the trace of the reference loop '
+                        '(Model/RuleModel.v run_trace: budget, slot pool of Segment::newSlot, machine death), the object of the C02_reference_* theorems; (c) %d adversarial rule programs accepted by the real bytecode loader and run on real segments.  Every case: make, dump (all gr_seg_*/gr_slot_*/gr_cinfo_* queries), destroy under '
                         'ASan+UBSan+LSan with a watchdog; n_slots <= 64*n_chars; hook counter against maxRuleLoop*(slots+budget+2); loop/growth traces through the extracted acceptors; '
                         'non-trivial = distinct (family, font, size class, growth class, well-formedness verdict)' % (nf, n_vm),
                    samples=[cases[0][:200], mcases[0][:200]], exhaustive=False)
